@@ -231,4 +231,33 @@ def rule_caches(run: Run, prog: Program) -> int:
         else:
             run.add("E1.cache", fshort, stmt, PROVEN, f"stored array depends on {sorted(deps)} = subset of key parameters {sorted(key_params)}; value is fresh at the store",
                     rec["loc"])
+    # sibling consistency of the keys used for one cache inside one function (lookup, membership test, store)
+    for fn in {rec["fn"].qualname: rec["fn"] for rec in eng.cache_fills.values()}.values():
+        keys: dict[str, list[tuple[str, ast.AST, ast.AST]]] = {}
+        for node in walk_no_nested(fn.node):
+            if isinstance(node, ast.Subscript) and isinstance(node.value, ast.Attribute) and node.value.attr.startswith("_cache"):
+                keys.setdefault(node.value.attr, []).append(("subscript", node.slice, node))
+            if isinstance(node, ast.Compare) and len(node.ops) == 1 and isinstance(node.ops[0], (ast.In, ast.NotIn)) \
+                    and isinstance(node.comparators[0], ast.Attribute) and node.comparators[0].attr.startswith("_cache"):
+                keys.setdefault(node.comparators[0].attr, []).append(("membership", node.left, node))
+        for attr, lst in keys.items():
+            forms = {}
+            for how, k, node in lst:
+                forms.setdefault(ast.dump(k), (k, node))
+            n += 1
+            label = f"keys of {attr}"
+            if len(forms) <= 1:
+                run.add("E1.cache", fn.short, label, PROVEN, f"{len(lst)} uses of {attr} agree on the key `{ast.unparse(lst[0][1])}`", fn.loc)
+                continue
+            ks = [k for k, _n in forms.values()]
+            names = [sorted(x.id for x in ast.walk(k) if isinstance(x, ast.Name)) for k in ks]
+            if all(isinstance(k, ast.Tuple) for k in ks) and all(nm == names[0] for nm in names):
+                texts = " vs ".join(f"`{ast.unparse(k)}`" for k in ks)
+                node = list(forms.values())[-1][1]
+                run.add("E1.cache", fn.short, label, VIOLATION,
+                        f"{attr} is looked up and filled under differently ordered keys ({texts}): an entry stored for one parameter combination is "
+                        f"served for the swapped one - the array returned depends on which tensors were built earlier in the process",
+                        f"{fn.module.rel}:{node.lineno}")
+            else:
+                run.add("E1.cache", fn.short, label, UNDECIDED, "several key expressions for one cache", fn.loc)
     return n
